@@ -453,6 +453,14 @@ def rule_contr(repo, tier):
     return res
 
 
-def rules(repo, tier):
+def _rules_core(repo, tier):
     return [rule_guard(repo, tier), rule_kind(repo, tier)] + rule_masks(repo, 'C09.MP', 'C09.GD', [(KER, 'Huber.forward')], floor=1) + \
         [rule_unit(repo, tier), rule_sel_axis(repo, tier), rule_contr(repo, tier)]
+
+
+def rules(repo, tier):
+    from ..memo import rule_memo
+    return list(_rules_core(repo, tier)) + [rule_memo(repo, 'C09.MEMO', 'history independence: nothing computed from the contents of a tensor argument is kept '
+                                                      'under the identity, address or version of that tensor, in module-level storage, or published from a generator '
+                                                      'before it is complete - a later call with the same object and other contents must not be answered from it',
+                                                      ['pypose.optim.corrector', 'pypose.optim.kernel', 'pypose.optim.optimizer'], floor=3)]
